@@ -189,6 +189,17 @@ var EvalTimeout = 30 * time.Second
 
 // RunInterp evaluates the program in a fresh interpreter.
 func RunInterp(p Program) Result {
+	r := runInterpT(p, EvalTimeout)
+	if strings.HasPrefix(r.Err, "hang") {
+		// a time budget is never an oracle: on a busy machine a slow run looks like a hang.
+		// Only a program that is still running after a second, 20x longer budget, alone,
+		// is reported as not terminating.
+		r = runInterpT(p, 20*EvalTimeout)
+	}
+	return r
+}
+
+func runInterpT(p Program, timeout time.Duration) Result {
 	registerRec()
 	rec.Reset()
 	done := make(chan Result, 1)
@@ -205,20 +216,18 @@ func RunInterp(p Program) Result {
 	select {
 	case r := <-done:
 		return r
-	case <-time.After(EvalTimeout):
+	case <-time.After(timeout):
 	}
 	if interrupt != nil {
 		interrupt()
 	}
 	select {
 	case r := <-done:
-		r.Err = "hang (interrupted after " + EvalTimeout.String() + ")"
-		r.Trace = nil
-		return r
+		r.Err = "hang (interrupted after " + timeout.String() + ")"
+		return r // keeps the partial trace: it shows where the program was looping
 	case <-time.After(10 * time.Second):
 	}
-	rec.Reset()
-	return Result{Err: "hang (not interruptible)"}
+	return Result{Err: "hang (not interruptible)", Trace: rec.Take()}
 }
 
 func panicText(p interface{}) string {
@@ -535,6 +544,13 @@ type Config struct {
 	// NTFunc, if set, decides non-triviality from the program and its interpreter run
 	// (e.g. "a jump was actually taken"); it overrides Program.NT.
 	NTFunc func(p Program, interp Result) string
+	// Interp, if set, replaces RunInterp as the interpreter-side runner (REPL histories,
+	// generic text, preprocessor mode ...). It must be deterministic and isolated.
+	Interp func(p Program) Result
+	// OracleOf, if set, maps a program to the program that the Go toolchain compiles
+	// and runs as its oracle (e.g. the hand-specialised copy of a generic template, or a
+	// REPL history rendered as one function). Default: the program itself.
+	OracleOf func(p Program) Program
 	// ShrinkSeconds bounds pass B (default 60 quick / 240 thorough).
 	ShrinkSeconds int
 }
@@ -584,7 +600,7 @@ func Run(t *testing.T, cfg Config) {
 		if !ok {
 			return
 		}
-		if err := Vet(p); err != nil {
+		if err := Vet(cfg.oracleOf(p)); err != nil {
 			r.Label("gen-invalid(go/types rejects)")
 			r.Note("generator produced invalid Go: %v\n%s", err, tailStr(p.Source("p"), 1500))
 			return
@@ -595,7 +611,7 @@ func Run(t *testing.T, cfg Config) {
 			return
 		}
 		seen[src] = true
-		res := RunInterp(p)
+		res := cfg.runInterp(p)
 		id := fmt.Sprintf("%dx%d", r.Shard(), len(cases))
 		cases = append(cases, stored{id, p, res})
 		for _, tag := range p.Tags {
@@ -618,7 +634,7 @@ func Run(t *testing.T, cfg Config) {
 	}
 	refs := make([]caseRef, len(cases))
 	for i, c := range cases {
-		refs[i] = caseRef{c.id, c.p}
+		refs[i] = caseRef{c.id, cfg.oracleOf(c.p)}
 	}
 	dir := filepath.Join(scratchDir(), "oracle-"+cfg.Name)
 	t0 := time.Now()
@@ -699,7 +715,7 @@ func passB(t *testing.T, cfg Config, table map[string]Result, seconds int) {
 			if cfg.Skip != nil && cfg.Skip(p) != "" {
 				return
 			}
-			if Vet(p) != nil {
+			if Vet(cfg.oracleOf(p)) != nil {
 				return
 			}
 			src := p.Source("p")
@@ -712,13 +728,13 @@ func passB(t *testing.T, cfg Config, table map[string]Result, seconds int) {
 					return // budget exhausted: treat unknown candidates as passing
 				}
 				var err error
-				w, err = OracleOne(scratchDir(), p)
+				w, err = OracleOne(scratchDir(), cfg.oracleOf(p))
 				if err != nil {
 					return
 				}
 				memo[src] = w
 			}
-			got := RunInterp(p)
+			got := cfg.runInterp(p)
 			if !got.Equal(w) {
 				if cfg.Known != nil {
 					if id := cfg.Known(p, got, w); id != "" && r.Known(id) {
@@ -730,6 +746,59 @@ func passB(t *testing.T, cfg Config, table map[string]Result, seconds int) {
 			}
 		})
 	})
+}
+
+func (cfg *Config) runInterp(p Program) Result {
+	if cfg.Interp != nil {
+		return cfg.Interp(p)
+	}
+	return RunInterp(p)
+}
+
+func (cfg *Config) oracleOf(p Program) Program {
+	if cfg.OracleOf != nil {
+		return cfg.OracleOf(p)
+	}
+	return p
+}
+
+// OracleBatch compiles and runs many programs in one module (keys are case ids made of
+// letters and digits only); rejected maps the ids gc refused to its message.
+func OracleBatch(dir string, progs map[string]Program) (results map[string]Result, rejected map[string]string, err error) {
+	ids := make([]string, 0, len(progs))
+	for id := range progs {
+		ids = append(ids, id)
+	}
+	sort.Strings(ids)
+	refs := make([]caseRef, len(ids))
+	for i, id := range ids {
+		refs[i] = caseRef{id, progs[id]}
+	}
+	defer os.RemoveAll(dir)
+	return runOracle(dir, refs)
+}
+
+// ReplayerWith is Replayer for checks that use Config.Interp / Config.OracleOf.
+func ReplayerWith(cfg Config) vlib.Replayer {
+	return func(content []byte) error {
+		p, ok := ParseReplay(content)
+		if !ok {
+			return nil
+		}
+		o := cfg.oracleOf(p)
+		if err := Vet(o); err != nil {
+			return nil
+		}
+		w, err := OracleOne(scratchDir(), o)
+		if err != nil {
+			return vlib.Inconclusive("oracle: " + err.Error())
+		}
+		got := cfg.runInterp(p)
+		if !got.Equal(w) {
+			return fmt.Errorf("interpreter and compiled Go disagree\n%s", Diff(got, w))
+		}
+		return nil
+	}
 }
 
 // Replayer returns the replay function of a gobatch-based check.
